@@ -61,6 +61,12 @@ def run(ctx):
             mk = lambda: {'t': rnd.choice([0, 1, 86400, 1000000000, -1, 1.5, 1700000000]), 'f': rnd.choice(['%Y-%m-%d', '%H:%M:%S', '%Y', '%s', '%A %B', '%Y-%m-%dT%H:%M:%S%.f']),
                           's': rnd.choice(['2020-01-02', '12:34:56', '1999', '2020-01-02T03:04:05.25', 'x'])}
             A = [mk() for _ in range(rnd.randint(1, 5))]; B = [mk() for _ in range(rnd.randint(1, 5))]
+        if i % 12 == 3:
+            # boolean functions whose arguments change type from record to record (true / false / not a boolean / absent): the value
+            # for one record must not depend on which argument decided for the record before
+            cfg = lib.new_cfg(select=['(and .flag (= .a 1))=an', '(or .flag (= .a 1))=orr', '(and (= .a 1) .k .flag)=an3', '(or (= .a 1) .k .flag)=or3', '(xor .flag .k)=xr', '(? .flag 1 2)=q', '(default .flag .k 0)=d'])
+            mk = lambda: dict([('a', rnd.choice([1, 2]))] + ([('flag', rnd.choice([True, False, 1, 's', None]))] if rnd.random() < 0.8 else []) + ([('k', rnd.choice([True, False, 'x']))] if rnd.random() < 0.7 else []))
+            A = [mk() for _ in range(rnd.randint(2, 8))]; B = [mk() for _ in range(rnd.randint(2, 8))]
         if i % 12 == 11:
             # very many small values first: nothing counted per value (depth, index, buffers) may leak into later records
             cfg = lib.new_cfg(select=rnd.choice([['.'], ['(size .)=n', '.'], []]))
